@@ -11,7 +11,7 @@ From PGV Require Import Proofs.RuleContract Proofs.WalkProofs Proofs.WalkProofs2
 Theorem C16_scoping : forall c rec sn si fs g b,
   validate_body c rec sn (VStruct si fs) g b =
   on_fields c rec (match sn with [] => s_name si | _ => sn end)
-            (effective_rules c (match sn with [] => true | _ => false end) (s_tstr si)) fs b.
+            (effective_rules c (match sn with [] => true | _ => false end) (s_id si)) fs b.
 Proof. exact scoping. Qed.
 Print Assumptions C16_scoping.
 
